@@ -55,6 +55,9 @@ type C10Case struct {
 	// Reenter: every third notification makes its handler change the client's registrations from inside (a handler of another
 	// method is registered and removed again, as a one-shot handler would do)
 	Reenter bool `json:"reenter,omitempty"`
+	// KillSess: once every call is inside its handler the session is terminated (a raw DELETE); the handlers emit after that. What
+	// a handler emits reaches its caller for as long as the handler runs, whatever has become of the session meanwhile
+	KillSess bool `json:"killsess,omitempty"`
 }
 
 // texts a message may hold: control characters, DEL, quotes and backslashes, line separators, an unprintable astral rune, bytes
@@ -113,6 +116,7 @@ func genC10(t *rapid.T) C10Case {
 	}
 	c.NoSession = c.Mode == ModeSS && rapid.IntRange(0, 3).Draw(t, "nosession") == 0
 	c.Reenter = rapid.IntRange(0, 3).Draw(t, "reenter") == 0
+	c.KillSess = c.Mode == ModeSS && !c.NoSession && rapid.IntRange(0, 3).Draw(t, "killsess") == 0
 	if rapid.IntRange(0, 4).Draw(t, "lives") == 0 {
 		c.Lives = rapid.IntRange(1, 2).Draw(t, "nlives")
 	}
@@ -181,6 +185,9 @@ type c10Seen struct {
 }
 
 func execC10(c C10Case) *Failure {
+	if c.KillSess {
+		c.Late = 0 // there is no session left for a later call
+	}
 	var wo WorldOpt
 	if c.NoSession {
 		wo.ServerOpts = append(wo.ServerOpts, mcp.WithoutSession())
@@ -189,11 +196,20 @@ func execC10(c C10Case) *Failure {
 	w := NewWorld(c.Mode, RegSpec{}, wo)
 	defer w.Close()
 	var emitErrs sync.Map
+	var entered atomic.Int64
+	killed := make(chan struct{})
 	w.Srv.RegisterTool(mcp.NewTool("emit", mcp.WithNumber("call")), func(ctx context.Context, req *mcp.CallToolRequest) (*mcp.CallToolResult, error) {
 		ci := int(req.Params.Arguments["call"].(float64))
 		sender, ok := mcp.GetNotificationSender(ctx)
 		if !ok {
 			return nil, fmt.Errorf("no notification sender in context")
+		}
+		if c.KillSess && ci >= 0 && ci < len(c.Calls) {
+			entered.Add(1)
+			select {
+			case <-killed:
+			case <-time.After(3 * time.Second):
+			}
 		}
 		if ci == c10LateCall {
 			for _, k := range c10LateIdx(c.Late) {
@@ -411,6 +427,16 @@ func execC10(c C10Case) *Failure {
 			}
 			results[ci] = d
 		}(ci)
+	}
+	if c.KillSess {
+		deadline := time.Now().Add(2 * time.Second)
+		for entered.Load() < int64(len(c.Calls)) && time.Now().Before(deadline) {
+			time.Sleep(200 * time.Microsecond)
+		}
+		if sc, ok := lc.C.(mcp.SessionClient); ok && sc.GetSessionID() != "" {
+			w.Direct("DELETE", "/mcp", map[string]string{"Mcp-Session-Id": sc.GetSessionID()}, nil)
+		}
+		close(killed)
 	}
 	wg.Wait()
 	if reenterStuck.Load() {
